@@ -41,6 +41,8 @@ package oauth2
 //@   ensures[C07] halfauth_only_cleared_by_login: each Sess.Del("halfauth") => before Sess.Put("uid", _)
 //@   -- C09: an OAuth2 login is announced with the after-oauth2 event
 //@   ensures[C09] login_announced: each Sess.Put("uid", _) => after Fire("After", EventOAuth2, _, _, _)
+//@   -- C09: the stamp the announcement queues is not taken back by anything queued after it
+//@   ensures[C09] stamp_survives: each Fire("After", EventOAuth2, _, _, _) => !(after Sess.DelAll(_)) && !(after Sess.Del("last_action"))
 //@   ensures[C03] login_veto: each Sess.Put("uid", _) =>
 //@       before Fire("Before", EventOAuth2, ?cu, _, _) -> (?hd, ?e) :: hd == false && e == nil &&
 //@       before Store.SaveOAuth2(?u) -> _ :: cu == u
@@ -60,3 +62,20 @@ package oauth2
 //@       emits Rand.Read(?n) -> ?e :: e == nil && len(n) == 32 && s == b64url(n)
 //@   ensures[C14] state_always_fresh: each Redirect(_) => emits Sess.Put(SessionOAuth2State, _)
 //@   ensures[C14,C01] no_login: each Sess.Put(?k, _) => k == SessionOAuth2State || k == SessionOAuth2Params
+//
+//@ func GoogleUserDetails
+//@   property C14 C18
+//@   -- C14: the uid handed to the callback is, verbatim, the string the provider's profile
+//@   -- answer carries in its "id" member (json_str: what encoding/json decodes into a string
+//@   -- field), read from the provider's own endpoint
+//@   ensures[C14] uid_verbatim: result.1 == nil ==>
+//@       (emits HTTP.Get(?url) -> (_, ?ge) :: ge == nil && url == googleInfoEndpoint &&
+//@        after IO.ReadAll(_) -> (?b, ?re) :: re == nil && json_ok(b) && mapget(result.0, OAuth2UID) == json_str(b, "id"))
+//@   ensures[C18] no_panic: !panics
+//@
+//@ func FacebookUserDetails
+//@   property C14 C18
+//@   ensures[C14] uid_verbatim: result.1 == nil ==>
+//@       (emits HTTP.Get(?url) -> (_, ?ge) :: ge == nil && url == facebookInfoEndpoint &&
+//@        after IO.ReadAll(_) -> (?b, ?re) :: re == nil && json_ok(b) && mapget(result.0, OAuth2UID) == json_str(b, "id"))
+//@   ensures[C18] no_panic: !panics
